@@ -19,6 +19,9 @@ partial def dumpNode (name : Name) : Node → List String
   | .file b => ["F" ++ Drv.hex name ++ ":" ++ Drv.hex b]
   | .symlink t => ["L" ++ Drv.hex name ++ ":" ++ Drv.hex t]
   | .fifo => ["P" ++ Drv.hex name]
+  | .special .sock => ["S" ++ Drv.hex name]
+  | .special .chr => ["C" ++ Drv.hex name]
+  | .special .blk => ["B" ++ Drv.hex name]
 
 def dumpSandbox (st : FS) : String :=
   match getAt st.root st.cwd with
@@ -60,9 +63,11 @@ partial def parseTree (toks : List String) (stack : List (Name × List (Name × 
       match splitColon body with
       | some (n, c) => if validName n then parseTree rest ((pn, (n, .symlink c) :: es) :: up) else none
       | none => none
-    else if tag == "P" then
+    else if tag == "P" || tag == "S" || tag == "C" || tag == "B" then
+      let node : Node := if tag == "P" then .fifo else if tag == "S" then .special .sock
+        else if tag == "C" then .special .chr else .special .blk
       match Drv.unhex body with
-      | some n => if validName n then parseTree rest ((pn, (n, .fifo) :: es) :: up) else none
+      | some n => if validName n then parseTree rest ((pn, (n, node) :: es) :: up) else none
       | none => none
     else none
   | _ :: _, [] => none
@@ -230,6 +235,20 @@ def step (s : Option FS) (line : String) : Option FS × String :=
         | .error .unmodelled => "unmodelled"
         | .error e => "err " ++ showE e
       (s, withDump st res)
+    | none => (s, "bad-op")
+  | ["meta", p], some st =>
+    match Drv.unhex p with
+    | some p =>
+      let b01 (b : Bool) := if b then "1" else "0"
+      let m := match fsMetadata st p with
+        | .ok (d, f, l, len) => s!"ok dfl={b01 d}{b01 f}{b01 l} len={match len with | some n => toString n | none => "-"}"
+        | .error .unmodelled => "unmodelled"
+        | .error e => "err " ++ showE e
+      let ex := match fsExists st p with
+        | .ok b => b01 b
+        | .error .unmodelled => "unmodelled"
+        | .error e => "err:" ++ showE e
+      (s, withDump st (if m == "unmodelled" || ex == "unmodelled" then "unmodelled" else m ++ " ex=" ++ ex))
     | none => (s, "bad-op")
   | "copy" :: a :: b :: rest, some st =>
     match Drv.unhex a, Drv.unhex b, parseScript rest.head?, decide (rest.length ≤ 1) with
